@@ -67,10 +67,12 @@ def common_views(conn, x, out, res):
     res["ls"], res["ls_shape"] = flat(ls), shp(ls)
     li = conn.like_input(ls)
     res["li"], res["li_shape"] = flat(li), shp(li)
+    res["li_cur"] = flat(conn.like_input(cur))
     post = conn.postsyn_receptive(out)
     res["post"], res["post_shape"] = flat(post), shp(post)
     pre = conn.presyn_receptive(cur)
     res["pre"], res["pre_shape"] = flat(pre), shp(pre)
+    res["bc_shape"] = shp(post * pre)          # how the two receptive views broadcast against each other
     res["w"], res["w_shape"] = flat(conn.weight), shp(conn.weight)
     res["b"] = None if conn.bias is None else flat(conn.bias)
     sel = conn.selector
@@ -87,7 +89,7 @@ def run_dense(c):
     except Exception as e:  # noqa
         return err("ctor", e)
     KEEP.append(conn)
-    x = syn_input(c["syn"], tens(c["x"], [c["B"]] + list(c["inshape"])))
+    x = syn_input(c["syn"], tens(c["x"], c["xshape"]))
     try:
         out = conn(x)
     except Exception as e:  # noqa
@@ -112,7 +114,7 @@ def run_direct(c):
     except Exception as e:  # noqa
         return err("ctor", e)
     KEEP.append(conn)
-    x = syn_input(c["syn"], tens(c["x"], [c["B"]] + list(c["shape"])))
+    x = syn_input(c["syn"], tens(c["x"], c["xshape"]))
     try:
         out = conn(x)
     except Exception as e:  # noqa
@@ -151,7 +153,7 @@ def lat_snapshot(conn):
 def run_lateral(c):
     n = math.prod(c["shape"])
     try:
-        conn = LinearLateral(tuple(c["shape"]), 1.0, synapse=mksyn(c["syn"]), bias=c["bias"], delay=c["delay"],
+        conn = LinearLateral(tuple(c["shape"]), float(c["syn"].get("dt", 1.0)), synapse=mksyn(c["syn"]), bias=c["bias"], delay=c["delay"],
                              batch_size=c["B"], weight_init=const_init(c["winit"], [n, n]),
                              bias_init=const_init(c["binit"]), delay_init=const_init(c["dinit"], [n, n]))
     except Exception as e:  # noqa
@@ -171,11 +173,14 @@ def run_lateral(c):
                 conn.bias = tens(op[1], [n])
             elif k == "upd":
                 # trainer-style update: accumulate positive / negative parts, then apply through Updatable.update
-                acc = getattr(conn.updater, op[1])
-                for p in op[2]:
-                    acc.pos = tens(p, [n, n])
-                for q in op[3]:
-                    acc.neg = tens(q, [n, n])
+                for p in op[1]:
+                    conn.updater.weight.pos = tens(p, [n, n])
+                for q in op[2]:
+                    conn.updater.weight.neg = tens(q, [n, n])
+                for p in op[3]:
+                    conn.updater.delay.pos = tens(p, [n, n])
+                for q in op[4]:
+                    conn.updater.delay.neg = tens(q, [n, n])
                 conn.update()
             elif k == "fwd":
                 x = syn_input(c["syn"], tens(op[1], [c["B"]] + list(c["shape"])))
@@ -193,8 +198,9 @@ def run_lateral(c):
 
 
 def run_conv(c):
+    sdt = float(c["syn"].get("dt", 1.0))
     try:
-        conn = Conv2D(c["H"], c["W"], c["C"], c["F"], 1.0, tuple(c["k"]) if c.get("tuple_geom", True) else c["k"][0],
+        conn = Conv2D(c["H"], c["W"], c["C"], c["F"], sdt, tuple(c["k"]) if c.get("tuple_geom", True) else c["k"][0],
                       stride=tuple(c["s"]) if c.get("tuple_geom", True) else c["s"][0],
                       padding=tuple(c["p"]) if c.get("tuple_geom", True) else c["p"][0],
                       dilation=tuple(c["d"]) if c.get("tuple_geom", True) else c["d"][0],
@@ -204,7 +210,7 @@ def run_conv(c):
         return err("ctor", e)
     KEEP.append(conn)
     res = {"ok": 1, "outshape": [int(v) for v in conn.outshape], "inshape": [int(v) for v in conn.inshape]}
-    x = syn_input(c["syn"], tens(c["x"], [c["B"], c["C"], c["H"], c["W"]]))
+    x = syn_input(c["syn"], tens(c["x"], c["xshape"]))
     try:
         out = conn(x)
     except Exception as e:  # noqa
@@ -213,7 +219,7 @@ def run_conv(c):
         return r
     common_views(conn, x.to(torch.float64), out, res)
     # independent reference operator on the effective input (current = unfold(input * Q/dt), unfold is linear)
-    scale = 1.0 if c["syn"]["t"] == "dplus" else float(c["syn"]["Q"]) / 1.0
+    scale = 1.0 if c["syn"]["t"] == "dplus" else float(c["syn"]["Q"]) / sdt
     ref = TF.conv2d(x.to(torch.float64) * scale, conn.weight, conn.bias, stride=tuple(c["s"]), padding=tuple(c["p"]),
                     dilation=tuple(c["d"]))
     res["ref"], res["ref_shape"] = flat(ref), shp(ref)
